@@ -131,6 +131,9 @@ class StoreW(OW):
         keys = [o for o in self.usable(pid, ["aes", "generic"], same_tok=s.tok) if o.extractable is not False and not o.sensitive]
         if not wks or not keys: return False
         wk = r.choice(wks); k = r.choice(keys)
+        pkeys = [o for o in self.usable(pid, ["rsa_priv", "ec_priv"], same_tok=s.tok) if o.extractable is True and not o.sensitive]
+        if pkeys and r.random() < 0.4:
+            return self.s_unwrap_private(tid, pid, s, wk, r.choice(pkeys), token, private)
         if getattr(self, "private_follows_source", False) and k.private and not private:
             private = True
             if not self.can_create(pid, s, token, private): return False
@@ -142,6 +145,27 @@ class StoreW(OW):
         t = self.new_key_tmpl(ref, token, private, ktype=kt)
         self.emit({"f": "C_UnwrapKey", "s": s.ref, "mech": m, "ukey": wk.ref, "in": {"from": name}, "tmpl": t, "out": ref}, tid)
         self.info[ref] = {"kind": self.info[k.ref]["kind"], "secret": {}}
+        self.after_create(tid, pid, s.ref, ref)
+        return ref
+
+    def s_unwrap_private(self, tid, pid, s, wk, k, token, private):
+        """wrap an extractable private key (PKCS#8 under AES) and unwrap it as a new private key; CKA_SENSITIVE / CKA_EXTRACTABLE are sometimes left to
+        their defaults (the history attributes of an unwrapped key must not depend on that)"""
+        r = self.r
+        if getattr(self, "private_follows_source", False) and k.private and not private:
+            private = True
+            if not self.can_create(pid, s, token, private): return False
+        name = "w%d" % len(self.ops[tid])
+        m = r.choice([mechs.simple(K.CKM_AES_KEY_WRAP_PAD), mechs.simple(K.CKM_AES_CBC_PAD, bytes(16))])
+        self.emit({"f": "C_WrapKey", "s": s.ref, "mech": m, "wkey": wk.ref, "key": k.ref, "outcap": 4096, "save": name}, tid)
+        ref = self.new_obj(); kind = self.info[k.ref]["kind"]
+        t = [A_ulong(K.CKA_CLASS, K.CKO_PRIVATE_KEY), A_ulong(K.CKA_KEY_TYPE, K.CKK_RSA if kind == "rsa_priv" else K.CKK_EC), A_bool(K.CKA_TOKEN, token), A_bool(K.CKA_PRIVATE, private),
+             A_bytes(K.CKA_LABEL, objs.label(ref)), A_bytes(K.CKA_ID, objs.rnd(r, 4)), A_bool(K.CKA_SIGN, True)]
+        if r.random() < 0.6: t.append(A_bool(K.CKA_SENSITIVE, r.random() < 0.5))
+        if r.random() < 0.6: t.append(A_bool(K.CKA_EXTRACTABLE, r.random() < 0.5))
+        r.shuffle(t)
+        self.emit({"f": "C_UnwrapKey", "s": s.ref, "mech": m, "ukey": wk.ref, "in": {"from": name}, "tmpl": t, "out": ref}, tid)
+        self.info[ref] = {"kind": kind, "secret": {}}
         self.after_create(tid, pid, s.ref, ref)
         return ref
 
